@@ -108,12 +108,21 @@ pub struct ReplayBehaviour {
 pub fn tick_replay_state(
     replay_state: &mut Option<DynamicMacroReplayState>,
     replay_behaviour: ReplayBehaviour,
+    replayed_events_are_handled: bool,
 ) -> Option<ReplayEvent> {
     if let Some(state) = replay_state {
         state.delay_remaining = state.delay_remaining.saturating_sub(1);
         if state.delay_remaining == 0 {
             state.delay_remaining = 5;
             match state.macro_items.pop_front() {
+                None if !replayed_events_are_handled => {
+                    // The last replayed events are still queued, e.g. behind a pending tap-hold.
+                    // One of them may be the play action of this very macro: stay active until
+                    // they are handled so that it is recognized as recursion, and look again
+                    // in the next tick.
+                    state.delay_remaining = 1;
+                    None
+                }
                 None => {
                     *replay_state = None;
                     log::debug!("finished macro replay");
